@@ -37,7 +37,7 @@ import (
 )
 
 type c16Op struct {
-	Kind     string `json:"kind"` // raw frame ping settings ack open prioopen openreset rst wu cont data prio pupd trailers bigopen goaway
+	Kind     string `json:"kind"` // raw frame ping settings ack open prioopen openreset rst wu cont contx data prio pupd trailers bigopen goaway
 	N        int    `json:"n,omitempty"`
 	K        int    `json:"k,omitempty"`
 	V        uint32 `json:"v,omitempty"`
@@ -261,7 +261,7 @@ func c16Gen(t *rapid.T) c16Case {
 	switch mode {
 	case 1:
 		kinds = []string{"frame", "frame", "raw", "ping", "settings", "ack", "open", "open", "open", "open", "open", "open", "openreset",
-			"rst", "rst", "rst", "wu", "wu", "wu", "cont", "data", "data", "prio", "prio", "prioopen", "prioopen", "pupd", "pupd", "trailers", "trailers", "bigopen", "goaway"}
+			"rst", "rst", "rst", "wu", "wu", "wu", "cont", "data", "data", "prio", "prio", "prioopen", "prioopen", "pupd", "pupd", "trailers", "trailers", "bigopen", "contx", "contx", "goaway"}
 	case 2:
 		kinds = []string{"ping", "ping", "settings", "settings", "ack", "open", "open", "openreset", "openreset", "rst", "rst", "wu", "wu", "cont", "cont", "data", "prio", "prioopen", "frame"}
 	}
@@ -309,6 +309,11 @@ func c16Gen(t *rapid.T) c16Case {
 			o.K = k.Draw(t, "k")
 			o.V = uint32(rapid.IntRange(0, 4).Draw(t, "variant"))
 			o.End = rapid.IntRange(0, 5).Draw(t, "end") != 0
+		case "contx": // a header block interrupted by another frame (RFC 9113 6.10: connection error)
+			o.N = rapid.IntRange(0, 2).Draw(t, "n") // CONTINUATION frames before the interloper
+			o.Path = path.Draw(t, "path")
+			o.T = rapid.SampledFrom([]uint8{0xff, 10, 0x11, 6, 0, 4, 8, 3, 2, 1, 16}).Draw(t, "type")
+			o.End = rapid.Bool().Draw(t, "sameStream")
 		case "bigopen": // request whose header list is larger than a small MaxHeaderBytes allows
 			o.N = rapid.IntRange(1, 3).Draw(t, "n")
 			o.Path = path.Draw(t, "path")
@@ -661,6 +666,25 @@ func c16Run(c c16Case, r *vp.Rec) (err error) {
 			for i := 0; i < n; i++ {
 				b = c16Frame(b, c16TypeHeaders, fl, newID(), blk, 0)
 			}
+		case "contx":
+			id := newID()
+			blk := c16Req(o.Path)
+			half := len(blk) / 2
+			b = c16Frame(b, c16TypeHeaders, c16EndStream, id, blk[:half], 0)
+			for i := 0; i < o.N; i++ {
+				b = c16Frame(b, c16TypeCont, 0, id, nil, 0)
+			}
+			other := uint32(0)
+			if o.End {
+				other = id
+			}
+			pl := make([]byte, 8)
+			if o.T == 4 {
+				pl = nil
+			}
+			b = c16Frame(b, o.T, 0, other, pl, 0) // the interloper
+			b = c16Frame(b, c16TypeCont, c16EndHeaders, id, blk[half:], 0)
+			n = o.N + 3
 		case "bigopen":
 			var fl uint8 = c16EndHeaders
 			if o.End {
